@@ -9,8 +9,8 @@ HARNESS_OP = "C08"
 FRESH_PROCESS = False          # the C08 operation itself starts one OS process per repetition
 CASE_TIMEOUT = "300s"
 HARNESS_ENV = {"COCA_BIN": os.path.join(vlib.ROOT, "harness", "bin", "coca")}
-REPORTS = ["C01", "C03", "C04", "C10", "C11", "C12", "C13", "C13fan", "C15", "C16", "C18", "C18svc", "C20"]
-RULE = ("for each report (code model C01, call graph C03, reverse call graph C04, bad smells + `bs -s type` C10, test "
+REPORTS = ["C01", "C03", "C04", "C07", "C10", "C11", "C12", "C13", "C13fan", "C15", "C16", "C18", "C18svc", "C20"]
+RULE = ("for each report (code model C01, the pass histories of C07 (projects that declare one simple class name in several packages and use it without a single-type import), call graph C03, reverse call graph C04, bad smells + `bs -s type` C10, test "
         "smells C11, API list C12, architecture graph C13 and its fan table (SortedByFan, an API-only report), git summaries C15, cloc tables C16, counts / evaluation / "
         "concepts C18 and the service summary of `coca evaluate` (no model: executions compared with each other only), Go and Python front-ends C20) the inputs of that report's own generator; the same operation is "
         "executed N times (4 quick, 8 thorough), each in its own OS process, so that every execution draws fresh "
